@@ -43,7 +43,7 @@ META = {
     'components_real': ['TapeRecorder key builder, capture selection, alias resolver, record + play', 'FileBasedTapeCassette / InMemoryTapeCassette', 'jsonpickle'],
     'components_stub': ['service and environment', 'uuid / clock', 'process restart driven by the harness (real fresh interpreters)'],
     'budgets': {'quick': {'seconds': 35}, 'thorough': {'seconds': 600}},
-    'required_probes': {'quick': ['cross_process'], 'thorough': ['cross_process', 'set_of_strings_argument', 'capture_subset', 'resolver_alias', 'near_miss_pair', 'long_argument', 'keys_built_concurrently']},
+    'required_probes': {'quick': ['cross_process'], 'thorough': ['cross_process', 'resolver_reads_call_arguments', 'set_of_strings_argument', 'capture_subset', 'resolver_alias', 'near_miss_pair', 'long_argument', 'keys_built_concurrently']},
 }
 
 
@@ -281,16 +281,34 @@ def threaded_keys(tape, clock):
         if V.is_mutable(shared):
             break
     spec = R.ServiceSpec()
-    for idx in range(2):
-        i = R.InputSpec(idx)
+    same_input = tape.draw(2) == 1
+    if same_input:
+        # both threads call the SAME input, with scalar arguments, in different orders (after one call on the main thread)
+        run.probe('same_input_called_from_two_threads')
+        i = R.InputSpec(0)
         i.npos = 2
-        i.pool = [((shared, idx), {}), ((shared, 'other'), {'kw': shared} if False else {})]
+        i.kind = tape.choice(['instance', 'static'])
+        i.pool = [((7 + n, 'k%d' % n), {}) for n in range(3)]
         for (a, k) in i.pool:
             for dep in ('d0', 'd1'):
-                i.outcomes[(R.resolved_alias(i, dep), R.model_captured(i, a, k))] = ('value', 'token-%d-%s' % (idx, V.short(a[1])))
+                i.outcomes[(R.resolved_alias(i, dep), R.model_captured(i, a, k))] = ('value', 'token-%s' % V.short(a))
         spec.inputs.append(i)
-    bodies = [[['in', 0, 0, 0, None], ['in', 0, 1, 0, None]], [['in', 1, 0, 0, None], ['in', 1, 1, 0, None]]]
-    spec.body = [['spawn', bodies, False]]
+        order1 = [tape.draw(3) for _ in range(2 + tape.draw(3))]
+        order2 = [tape.draw(3) for _ in range(2 + tape.draw(3))]
+        bodies = [[['in', 0, n, 0, None] for n in order1], [['in', 0, n, 0, None] for n in order2]]
+        spec.body = [['in', 0, tape.draw(3), 0, None]]
+    else:
+        for idx in range(2):
+            i = R.InputSpec(idx)
+            i.npos = 2
+            i.pool = [((shared, idx), {}), ((shared, 'other'), {'kw': shared} if False else {})]
+            for (a, k) in i.pool:
+                for dep in ('d0', 'd1'):
+                    i.outcomes[(R.resolved_alias(i, dep), R.model_captured(i, a, k))] = ('value', 'token-%d-%s' % (idx, V.short(a[1])))
+            spec.inputs.append(i)
+        bodies = [[['in', 0, 0, 0, None], ['in', 0, 1, 0, None]], [['in', 1, 0, 0, None], ['in', 1, 1, 0, None]]]
+        spec.body = []
+    spec.body = spec.body + [['spawn', bodies, False]]
     sim = Sim(tape, run, preempt_p=tape.choice([0.02, 0.05, 0.2]),
               target_prefixes=[os.path.join(REPO, 'playback'), os.path.dirname(jsonpickle.__file__)], max_steps=400000)
     store = C.Store('memory', clock=clock)
@@ -317,6 +335,26 @@ def threaded_keys(tape, clock):
     a = V.canon(rec.outcome.value) if rec.outcome.kind == 'return' else None
     b = V.canon(rep.op_outcome.value) if rep.op_outcome and rep.op_outcome.kind == 'return' else None
     run.check(a == b, 'own_value_on_replay', 'wrong-token-after-concurrent-key-building', 'replay handed other values than recorded')
+    if run.violations:
+        return run
+    # ... and the replay itself with its two threads looking keys up at the same time
+    sim2 = Sim(tape, run, preempt_p=tape.choice([0.02, 0.05, 0.2]),
+               target_prefixes=[os.path.join(REPO, 'playback'), os.path.dirname(jsonpickle.__file__)], max_steps=400000)
+    res2 = {}
+
+    def main2():
+        res2['rep'] = R.replay_once(spec, run, store.open(), rec.rec_id, thread_factory=R.sim_thread_factory(sim2))
+    try:
+        sim2.run_main(main2)
+    except SimDeadlock as ex:
+        run.violate('own_value_on_replay', 'deadlock', str(ex))
+        return run
+    rep2 = res2['rep']
+    if rep2.outcome.kind != 'return':
+        run.violate('own_value_on_replay', 'missed-key-during-concurrent-lookups', 'two threads of the replay looked keys up at the same time; play raised %r' % (rep2.outcome.exc,))
+        return run
+    c = V.canon(rep2.op_outcome.value) if rep2.op_outcome and rep2.op_outcome.kind == 'return' else None
+    run.check(a == c, 'own_value_on_replay', 'wrong-token-during-concurrent-lookups', 'a replay whose two threads looked keys up at the same time handed out other values than recorded')
     return run
 
 
@@ -327,8 +365,97 @@ def run_tape(tape):
             return threaded_keys(tape, clock)
     if mode == 1:
         return cross_process_single(tape)
+    if mode == 3:
+        with seams.deterministic(tape) as clock:
+            return resolver_reads_arguments(tape, clock)
     with seams.deterministic(tape) as clock:
         return in_process(tape, clock)
+
+
+def resolver_reads_arguments(tape, clock):
+    """Aliases formatted from the call's own arguments (positional, by keyword, defaulted), with the argument that feeds
+    the alias excluded from capture: calls that resolve to different aliases never share a key, equal calls always do."""
+    run = Run(PROP)
+    run.probe('resolver_reads_call_arguments')
+    run.nontrivial = True
+    regions = ['eu', 'us', 'apac'][:2 + tape.draw(2)]
+    accounts = ['alice', 'bob', ('acct', 7)][:1 + tape.draw(3)]
+    static = bool(tape.draw(2))
+    capture_region = bool(tape.draw(2))
+    styles = ['positional', 'keyword'] if capture_region else ['positional', 'keyword', 'default']     # a captured argument must be passed
+    calls = []
+    for acc in accounts:
+        for reg in regions:
+            calls.append((acc, reg, tape.choice(styles if reg == 'eu' else styles[:2])))
+    calls = tape.shuffle(calls)
+    # (passing a captured argument by position or by keyword is part of the call's identity: the replay keeps the style then)
+    replay_calls = tape.shuffle([(acc, reg, st if capture_region else tape.choice(styles if reg == 'eu' else styles[:2])) for acc, reg, st in calls])
+    journal = []
+    store = C.gen_store(tape, clock, kinds=['memory', 'file'])
+
+    def build(recorder):
+        base = 0 if static else 1
+        caps = [CapturedArg(base, 'account')] + ([CapturedArg(base + 1, 'region')] if capture_region else [])
+
+        def body(account, region='eu'):
+            journal.append((account, region))
+            return 'balance of %s in %s' % (V.srepr(account), region)
+
+        class Svc(object):
+            @recorder.operation()
+            def execute(self, todo):
+                out = []
+                for acc, reg, style in todo:
+                    f = Svc.balance if static else self.balance
+                    if style == 'positional':
+                        out.append(f(acc, reg))
+                    elif style == 'keyword':
+                        out.append(f(acc, region=reg))
+                    else:
+                        out.append(f(acc))
+                return out
+            if static:
+                balance = staticmethod(recorder.static_intercept_input('{region}.balance', capture_args=caps,
+                                                                       alias_params_resolver=lambda account, region='eu': {'region': region})(body))
+            else:
+                @recorder.intercept_input('{region}.balance', capture_args=caps,
+                                          alias_params_resolver=lambda self, account, region='eu': {'region': region})
+                def balance(self, account, region='eu'):
+                    return body(account, region)
+        R.D.register('Svc', Svc)
+        return Svc
+    try:
+        cas = store.open()
+        recorder = TapeRecorder(cas)
+        recorder.enable_recording()
+        out = R.call_outcome(lambda: build(recorder)().execute(calls))
+        ids = list(cas.iter_recording_ids('Svc'))
+        run.say('%s input {region}.balance, region %s; recorded calls %s; replayed calls %s' % (
+            'static' if static else 'instance', 'captured' if capture_region else 'excluded from capture', V.srepr(calls), V.srepr(replay_calls)))
+        run.ev('resolver', static, capture_region, V.srepr(calls), V.srepr(replay_calls), store.describe())
+        if out.kind != 'return' or len(ids) != 1:
+            run.violate('own_value_on_replay', 'recording-failed', 'recording failed: %r' % (out,))
+            return run
+        r = store.open().get_recording(ids[0])
+        nkeys = len([k for k in r.get_all_keys() if k.startswith('input:')])
+        ncalls = len(set((V.canon(a), reg) for a, reg, _ in calls))
+        run.check(nkeys == ncalls, 'one_key_per_canonical_call', 'calls-share-a-key' if nkeys < ncalls else 'equal-calls-under-several-keys',
+                  lambda: '%d distinct (account, region) calls were recorded under %d keys' % (ncalls, nkeys))
+        del journal[:]
+        rep_recorder = TapeRecorder(store.open())
+        Svc2 = build(rep_recorder)
+        res = R.call_outcome(lambda: rep_recorder.play(ids[0], lambda recording: Svc2().execute(replay_calls)))
+        if res.kind != 'return':
+            run.violate('own_value_on_replay', 'missed-key-same-process:resolver-argument', 'replay raised %r' % (res.exc,))
+            return run
+        outs = [o for o in res.value.playback_outputs if TapeRecorder.OPERATION_OUTPUT_ALIAS in o.key]
+        got = outs[0].value['args'][0] if outs else None
+        exp = ['balance of %s in %s' % (V.srepr(a), reg) for a, reg, _ in replay_calls]
+        run.check(got == exp, 'own_value_on_replay', 'wrong-token:resolver-argument', lambda: 'replayed calls got %s, their own recorded values are %s' % (got, exp))
+        run.check(not journal, 'own_value_on_replay', 'body-ran-in-replay', lambda: 'bodies ran in replay: %s' % journal[:3])
+    finally:
+        store.close()
+    return run
 
 
 def in_process(tape, clock):
@@ -465,5 +592,5 @@ def run_index(i, seed, tier, emit):
             emit(run, t)
         return
     for k in range(40):
-        t = Tape(seed + k, prefix=[0 if k % 8 else 4])
+        t = Tape(seed + k, prefix=[4 if k % 8 == 0 else (3 if k % 8 == 1 else 0)])
         emit(safe_run_tape(mod, t), t)
